@@ -989,7 +989,8 @@ Definition src_facts_C03 : Prop :=
   /\ shape_Topic_messagePump = expect_Topic_messagePump.
 
 Definition src_facts_C05 : Prop :=
-  shape_Channel_flush = expect_Channel_flush
+  shape_Topic_messagePump = expect_Topic_messagePump
+  /\ shape_Channel_flush = expect_Channel_flush
   /\ shape_Channel_exit = expect_Channel_exit
   /\ shape_Topic_flush = expect_Topic_flush
   /\ shape_Topic_exit = expect_Topic_exit
